@@ -62,6 +62,8 @@ Par(lazy, ups, keep, pre) == [lazy |-> lazy, ups |-> ups, keep |-> keep, pre |->
 ParsLazy3  == {Par(TRUE, u, "thr", <<0, 0, 0>>) : u \in {"rand", "det"}}
 ParsLazy3x == {Par(TRUE, u, k, p) : u \in {"rand", "det"}, k \in {"thr", "none"},
                                     p \in {<<0, 0, 0>>, <<1, 0, 2>>}}
+ParsLazy3m == {Par(TRUE, "rand", "thr", <<1, 0, 2>>), Par(TRUE, "det", "thr", <<0, 0, 0>>),
+               Par(TRUE, "rand", "none", <<0, 0, 0>>), Par(TRUE, "det", "none", <<1, 0, 2>>)}
 ParsEager3 == {Par(FALSE, u, "thr", p) : u \in {"rand", "det"},
                                          p \in {<<0, 0, 0>>, <<1, 0, 2>>}}
 ParsLazy2  == {Par(TRUE, u, "thr", <<0, 0>>) : u \in {"rand", "det"}}
@@ -70,6 +72,7 @@ ParsLazy3r == {Par(TRUE, "rand", "thr", <<0, 0, 0>>)}
 ParsEager3r == {Par(FALSE, "rand", "thr", <<1, 0, 2>>), Par(FALSE, "det", "thr", <<0, 0, 0>>)}
 IdxQ3 == {0 - 4, 0 - 3, 0 - 1, 0, 2, 3}       \* -len-1, -len, -1, 0, len-1, len
 IdxC3 == {0 - 1, 0, 2, 3}
+IdxS3 == {0 - 1, 2, 3}                        \* -1, len-1, len
 IdxF3 == (0 - 4)..3
 IdxF2 == (0 - 3)..2
 IdxF4 == (0 - 5)..4
@@ -77,6 +80,7 @@ SubQ  == {0 - 1, 0}
 SubZ  == {0}
 SubF  == {0 - 3, 0 - 2, 0 - 1, 0, 1, 2}
 Pf12  == {<<1, 2>>, <<2, 2>>}
+Pf2   == {<<2, 2>>}
 Pf123 == {<<1, 1>>, <<1, 3>>, <<2, 2>>, <<2, 3>>, <<3, 3>>}
 
 -----------------------------------------------------------------------------
